@@ -76,6 +76,7 @@ def sizeof(t):
     if isinstance(t, PtrTy): return 8
     if isinstance(t, ArrTy): return t.n * sizeof(t.el)
     if isinstance(t, StructTy):
+        if t.opaque: return 1   # opaque external objects (e.g. OpenMPI's predefined handles): only their address is used
         return struct_layout(t)[1]
     raise ValueError('sizeof %r' % (t,))
 
@@ -86,7 +87,7 @@ def alignof(t):
     if isinstance(t, PtrTy): return 8
     if isinstance(t, ArrTy): return alignof(t.el)
     if isinstance(t, StructTy):
-        if t.packed or not t.fields: return 1
+        if t.opaque or t.packed or not t.fields: return 1
         return max(alignof(f) for f in t.fields)
     raise ValueError('alignof %r' % (t,))
 
@@ -214,6 +215,12 @@ def parse_value(p, ty):
         if v in ('bitcast', 'ptrtoint', 'inttoptr', 'addrspacecast', 'trunc', 'zext', 'sext'):
             p.expect('('); ft = p.type(); x = parse_value(p, ft); p.expect('to'); tt = p.type(); p.expect(')')
             return Val('ccast', tt, op=v, x=x)
+        if v == 'icmp':
+            pred = p.next()[1]; p.expect('('); t1 = p.type(); a = parse_value(p, t1); p.expect(','); t2 = p.type(); b = parse_value(p, t2); p.expect(')')
+            return Val('cicmp', IntTy(1), pred=pred, a=a, b=b, opty=t1)
+        if v == 'select':
+            p.expect('('); tc = p.type(); c = parse_value(p, tc); p.expect(','); t1 = p.type(); a = parse_value(p, t1); p.expect(','); t2 = p.type(); b = parse_value(p, t2); p.expect(')')
+            return Val('cselect', t1, c=c, a=a, b=b)
         if v in ('add', 'sub', 'mul'):
             while p.peek()[1] in ('nsw', 'nuw'): p.next()
             p.expect('('); t1 = p.type(); a = parse_value(p, t1); p.expect(','); t2 = p.type(); b = parse_value(p, t2); p.expect(')')
@@ -483,12 +490,12 @@ LIBC = {  # IR external name -> C name implemented in ll2c_rt.h
     'memcpy': 'rt_memmove', 'memmove': 'rt_memmove', 'memset': 'rt_memset',
 }
 CXXRT = ('__assert_fail', '__cxa_allocate_exception', '__cxa_throw', '__cxa_rethrow', '__cxa_begin_catch', '__cxa_end_catch',
-         '__cxa_free_exception', '__clang_call_terminate', '_ZSt9terminatev', '_Znwm', '_Znam', '_ZdlPv', '_ZdaPv', '_ZdlPvm', '_ZdaPvm',
-         '__gxx_personality_v0', 'vf_assume', 'vf_assert', 'vf_reach', 'vf_nondet_long', 'vf_nondet_int')
+         '__cxa_free_exception', '__clang_call_terminate', '_ZSt9terminatev', '_Znwm', '_Znam', '_ZdlPv', '_ZdaPv', '_ZdlPvm', '_ZdaPvm', '_ZnwmRKSt9nothrow_t', '_ZnamRKSt9nothrow_t', '_ZdlPvRKSt9nothrow_t', '_ZdaPvRKSt9nothrow_t',
+         '__gxx_personality_v0', 'vf_assume', 'vf_assert', 'vf_reach', 'vf_nondet_long', 'vf_nondet_int', 'vf_within')
 
 class Emitter:
     def __init__(s, mod, narrow=0, prefix_ext='', keep=None):
-        s.mod = mod; s.narrow = narrow; s.out = []; s.aggs = {}; s.keep = keep
+        s.mod = mod; s.narrow = narrow; s.out = []; s.aggs = {}; s.keep = keep; s.untyped = False
         s.typeinfos = []
 
     # ---- C types
@@ -531,7 +538,7 @@ class Emitter:
         if k == 'local': return cid(x.name)
         if k == 'global':
             if x.name in s.mod.fns: return '((ptr)&%s)' % s.fname(x.name)
-            return '((ptr)%s)' % s.gname(x.name)
+            return '((ptr)&%s)' % s.gname(x.name)
         if k == 'int':
             t = res(x.ty)
             if isinstance(t, PtrTy): return '((ptr)%d)' % x.value
@@ -555,6 +562,12 @@ class Emitter:
             return '(%s + (%s))' % (s.v(x.base), s.gep_off(x.srcty, x.idx))
         if k == 'ccast':
             return s.castexpr(x.op, x.x.ty, x.ty, s.v(x.x))
+        if k == 'cicmp':
+            class _I: pass
+            i = _I(); i.ty = x.opty; i.a = x.a; i.b = x.b; i.pred = x.pred
+            return s.icmp(i)
+        if k == 'cselect':
+            return '(%s ? %s : %s)' % (s.v(x.c), s.v(x.a), s.v(x.b))
         if k == 'cbin':
             o = {'add': '+', 'sub': '-', 'mul': '*'}[x.op]
             return '((%s)(%s %s %s))' % (s.cty(x.ty), s.v(x.a), o, s.v(x.b))
@@ -670,7 +683,7 @@ class Emitter:
                     sz = sizeof(ins.ty); nalloca += 1
                     assert ins.n is None or ins.n.kind == 'int', 'dynamic alloca'
                     cnt = ins.n.value if ins.n is not None else 1
-                    o.append('  static_or_auto char %s_mem[%d] __attribute__((aligned(%d))); %s = %s_mem;' % (d, max(1, sz * cnt), ins.align or 8, d, d))
+                    o.append('  static_or_auto %s; %s = (ptr)&%s_mem;' % (s.obj_decl(ins.ty, d + '_mem', ins.align or 8, cnt), d, d))
                 elif op == 'bin':
                     o.append('  %s = %s;' % (d, s.binexpr(ins)))
                 elif op == 'fneg': o.append('  %s = -%s;' % (d, s.v(ins.a)))
@@ -765,6 +778,13 @@ class Emitter:
         return '((u1)(%s %s %s))' % (a, cop, b)
 
     def emit_call(s, o, f, b, ins, goto, retdummy):
+        n0 = len(o)
+        s.emit_call_(o, f, b, ins, goto, retdummy)
+        if ins.op == 'invoke' and not any('goto ' in l for l in o[n0:] if l.lstrip().startswith('if (eh_pending)')):
+            # an invoke of something modelled inline (intrinsic, vf_*, runtime call that cannot throw): continue at the normal destination
+            o.append('  ' + goto(b.name, ins.ok))
+
+    def emit_call_(s, o, f, b, ins, goto, retdummy):
         cal = ins.callee
         d = cid(ins.dst) if ins.dst and not isinstance(res(ins.rty), VoidTy) else None
         name = cal.name if cal.kind == 'global' else None
@@ -791,7 +811,7 @@ class Emitter:
         if n.startswith('llvm.assume'):
             return  # deliberately not assumed: assumptions derived from UB are not trusted
         if n.startswith('llvm.memcpy') or n.startswith('llvm.memmove'):
-            o.append('  rt_memmove(%s, %s, (u64)%s);' % (av[0], av[1], av[2])); return
+            o.append('  %s(%s, %s, (u64)%s);' % ('rt_memmove' if args[2].kind == 'int' else 'rt_memmove_v', av[0], av[1], av[2])); return
         if n.startswith('llvm.memset'):
             o.append('  rt_memset(%s, %s, (u64)%s);' % (av[0], av[1], av[2])); return
         m = re.match(r'llvm\.(smax|smin|umax|umin)\.i(\d+)', n)
@@ -834,6 +854,8 @@ class Emitter:
             msg = s.const_cstr(args[0])
             if msg is None: raise ValueError('vf_reach with a non-constant tag in %s' % f.name)
             o.append('  rt_reach("REACH %s");' % msg); return
+        if n == 'vf_within':
+            o.append('  %s = rt_within(%s, %s, %s);' % (d, av[0], av[1], av[2])); return
         if n == 'vf_nondet_long':
             o.append('  { u64 nd_ = nondet_w(); RT_LOG_IN((s64)nd_); %s nd_; }' % ((d + ' =') if d else '(void)')); return
         if n == 'vf_nondet_int':
@@ -855,8 +877,10 @@ class Emitter:
         if n == '__cxa_end_catch': o.append('  eh_end_catch();'); finish(False) if ins.op == 'invoke' else None; return
         if n in ('__clang_call_terminate', '_ZSt9terminatev'):
             o.append('  rt_terminate();'); return
-        if n in ('_Znwm', '_Znam'): o.append('  %s = rt_new(%s);' % (d, av[0])); finish(); return
-        if n in ('_ZdlPv', '_ZdaPv', '_ZdlPvm', '_ZdaPvm'): o.append('  rt_delete(%s);' % av[0]); return
+        if re.match(r'_ZSt\d+__throw_', n):   # libstdc++ helpers that throw a std:: exception: modelled as a throw of a type matched only by catch(...)
+            o.append('  eh_throw(eh_alloc(8), (ptr)0);'); finish(); return
+        if n in ('_Znwm', '_Znam', '_ZnwmRKSt9nothrow_t', '_ZnamRKSt9nothrow_t'): o.append('  %s = rt_new(%s);' % (d, av[0])); finish(); return
+        if n in ('_ZdlPv', '_ZdaPv', '_ZdlPvm', '_ZdaPvm', '_ZdlPvRKSt9nothrow_t', '_ZdaPvRKSt9nothrow_t'): o.append('  rt_delete(%s);' % av[0]); return
         # ---- ordinary call
         call = '%s(%s)' % (s.fname(name), ', '.join(av))
         callee = s.mod.fns.get(name)
@@ -894,6 +918,54 @@ class Emitter:
         o.append('    eh_pending = 0; *(ptr*)(%s.b) = lp_obj; *(u32*)(%s.b + 8) = (u32)lp_sel; }' % (d, d))
 
     # ---- globals
+    def memty(s, t):
+        """C type with exactly the x86-64 layout of LLVM type t, for objects in memory (allocas, globals).  Memory always holds
+        full-width values (i64 = 8 bytes even in narrow mode).  Typed objects let cbmc resolve constant-offset accesses to members
+        (constant propagation of pointers and integers stored in memory) instead of byte-extracting from char arrays."""
+        t = res(t)
+        if isinstance(t, IntTy):
+            if t.bits <= 8: return 'u8', ''
+            if t.bits <= 16: return 'u16', ''
+            if t.bits <= 32: return 'u32', ''
+            if t.bits <= 64: return 'unsigned long long', ''
+            return 'u128', ''
+        if isinstance(t, FloatTy): return {'float': 'float', 'double': 'double'}.get(t.name, 'long double'), ''
+        if isinstance(t, PtrTy): return 'ptr', ''
+        if isinstance(t, ArrTy):
+            b, suf = s.memty(t.el)
+            return b, '[%d]%s' % (max(t.n, 0), suf) if t.n > 0 else None
+        if isinstance(t, StructTy):
+            if t.opaque or not t.fields: return None, None
+            key = 'M' + repr(t) + '#%d#%s' % (sizeof(t), ','.join(map(str, struct_layout(t)[0])))
+            if key not in s.aggs:
+                offs, total = struct_layout(t)
+                parts = []; cur = 0
+                for i, (f, o_) in enumerate(zip(t.fields, offs)):
+                    if o_ > cur: parts.append('char pad%d_[%d];' % (i, o_ - cur))
+                    fsz = sizeof(f)
+                    if fsz == 0: cur = o_; continue
+                    b, suf = s.memty(f)
+                    if b is None: parts.append('char f%d[%d];' % (i, fsz))
+                    else: parts.append('%s f%d%s;' % (b, i, suf))
+                    cur = o_ + fsz
+                if total > cur: parts.append('char padend_[%d];' % (total - cur))
+                name = 'mt%d' % len(s.aggs)
+                s.aggs[key] = name
+                s.aggdefs = getattr(s, 'aggdefs', [])
+                s.aggdefs.append('typedef struct __attribute__((packed)) { %s } %s;' % (' '.join(parts), name))
+            return s.aggs[key], ''
+        return None, None
+
+    def obj_decl(s, t, name, align, count=1):
+        sz = max(1, sizeof(t) * count)
+        b, suf = (None, None)
+        try:
+            if count == 1 and not s.untyped: b, suf = s.memty(t)
+        except Exception:
+            b = None
+        if b is None or suf is None: return 'char %s[%d] __attribute__((aligned(%d)))' % (name, sz, align)
+        return '%s %s%s __attribute__((aligned(%d)))' % (b, name, suf, align)
+
     def emit_global_decl(s, g):
         n = s.gname(g['name']); sz = max(1, sizeof(g['ty'])); al = g['align'] or alignof(g['ty'])
         if g['external'] or g['init'] is None:
@@ -904,7 +976,7 @@ class Emitter:
                 if txt[i] == '\\': bs.append(int(txt[i+1:i+3], 16)); i += 3
                 else: bs.append(ord(txt[i])); i += 1
             return 'char %s[%d] = {%s};' % (n, sz, ','.join(map(str, bs)))
-        return 'char %s[%d] __attribute__((aligned(%d)));' % (n, sz, al)
+        return s.obj_decl(g['ty'], n, al) + ';'
 
     def init_stmts(s, base, off, v):
         """statements initialising memory at base+off with constant v"""
@@ -939,7 +1011,7 @@ class Emitter:
         protos = []; missing = []
         for f in fns:
             n = f.name[1:]
-            if n.startswith('llvm.') or n in CXXRT or n in LIBC:
+            if n.startswith('llvm.') or n in CXXRT or n in LIBC or re.match(r'_ZSt\d+__throw_', n):
                 if f.defined and n == '__clang_call_terminate': f.defined = False
                 continue
             params = ', '.join(s.cty(p['ty']) for p in f.params) or 'void'
@@ -952,7 +1024,7 @@ class Emitter:
         inits = []
         for g in mod.globals.values():
             if g['init'] is not None and g['init'].kind != 'cstr':
-                try: inits += s.init_stmts(s.gname(g['name']), 0, g['init'])
+                try: inits += s.init_stmts('((ptr)&%s)' % s.gname(g['name']), 0, g['init'])
                 except Exception as e: raise ValueError('initialiser of %s: %s' % (g['name'], e))
         for f in fns:
             if f.defined: body.append(s.emit_fn(f))
@@ -961,7 +1033,7 @@ class Emitter:
                 rt = s.cty(f.ret)
                 body.append('%s %s(%s) { /* stubbed by --stub-fn */ %s }' % (rt, s.fname(f.name), params, '' if rt == 'void' else 'return (%s){0};' % rt if rt.startswith('agg') else 'return (%s)0;' % rt))
         tis = [g['name'] for g in mod.globals.values() if g['name'].startswith('@_ZTI')]
-        tid = ['int eh_typeid(ptr ti) {'] + ['  if (ti == (ptr)%s) return %d;' % (s.gname(n), i + 2) for i, n in enumerate(tis)] + ['  return 1; /* catch-all / unknown */', '}']
+        tid = ['int eh_typeid(ptr ti) {'] + ['  if (ti == (ptr)&%s) return %d;' % (s.gname(n), i + 2) for i, n in enumerate(tis)] + ['  return 1; /* catch-all / unknown */', '}']
         entries = [f for f in fns if f.defined and f.name[1:].startswith('vfh_')]
         mains = []
         for f in entries:
@@ -980,7 +1052,7 @@ class Emitter:
         def scan(v):
             if v is None: return
             if getattr(v, 'kind', None) == 'global' and v.name in s.mod.fns: used.add(v.name)
-            for k in ('base', 'x', 'a', 'b'):
+            for k in ('base', 'x', 'a', 'b', 'c'):
                 if hasattr(v, k) and isinstance(getattr(v, k), Val): scan(getattr(v, k))
             for k in ('idx', 'elems'):
                 if hasattr(v, k):
@@ -1011,7 +1083,7 @@ def main():
     mod = parse_module(open(a.ll).read())
     for f in mod.fns.values():
         n = f.name[1:]
-        if n.startswith('llvm.') or n in CXXRT or n in LIBC: continue
+        if n.startswith('llvm.') or n in CXXRT or n in LIBC or re.match(r'_ZSt\d+__throw_', n): continue
         if any(re.search(r, f.name) for r in a.stub_fn):
             f.defined = False; f.blocks = []; f.stubbed = True; sys.stderr.write('ll2c: stubbed %s\n' % f.name)
     em = Emitter(mod)
